@@ -44,6 +44,7 @@ type HarnessCfg struct {
 	MethodSetHook func(e *Exec, x Iface, it *types.Interface) (bool, bool)
 	SymMethods bool
 	ReplayCuts bool
+	Sweep int // native sampling rounds (trusted-base validation)
 	CtxTimers bool
 	Env map[string]string
 }
@@ -288,6 +289,8 @@ func (l *Loaded) parseDirective(h *HarnessCfg, sp *ssa.Package, line string) {
 		if len(f) >= 3 {
 			h.Env[f[1]] = f[2]
 		}
+	case "native-sweep":
+		h.Sweep = atoi(f[1])
 	case "replay-with-cuts":
 		h.ReplayCuts = true
 	case "twin":
